@@ -12,22 +12,24 @@ namespace Mimium.Sched
 
 /-! ## heap -/
 
-theorem exists_min : ∀ (h : List Task), h ≠ [] → ∃ x, x ∈ h ∧ ∀ y ∈ h, x.when ≤ y.when
+theorem minWhen_le : ∀ (h : List Task), ∀ y ∈ h, minWhen h ≤ y.when
+  | [], _, hy => by simp at hy
+  | [x], y, hy => by simp at hy; subst hy; simp [minWhen]
+  | x :: z :: zs, y, hy => by
+    simp only [minWhen]
+    rcases List.mem_cons.1 hy with rfl | hy
+    · exact Nat.min_le_left _ _
+    · exact Nat.le_trans (Nat.min_le_right _ _) (minWhen_le (z :: zs) y hy)
+
+theorem minWhen_mem : ∀ (h : List Task), h ≠ [] → ∃ x, x ∈ h ∧ x.when = minWhen h
   | [], hne => absurd rfl hne
-  | [x], _ => ⟨x, by simp, by simp⟩
-  | x :: y :: ys, _ => by
-    obtain ⟨m, hm, hmin⟩ := exists_min (y :: ys) (by simp)
-    by_cases hx : x.when ≤ m.when
-    · refine ⟨x, by simp, ?_⟩
-      intro z hz
-      rcases List.mem_cons.1 hz with rfl | hz
-      · exact Nat.le_refl _
-      · exact Nat.le_trans hx (hmin z hz)
-    · refine ⟨m, List.mem_cons_of_mem _ hm, ?_⟩
-      intro z hz
-      rcases List.mem_cons.1 hz with rfl | hz
-      · omega
-      · exact hmin z hz
+  | [x], _ => ⟨x, by simp, by simp [minWhen]⟩
+  | x :: z :: zs, _ => by
+    obtain ⟨m, hm, hmw⟩ := minWhen_mem (z :: zs) (by simp)
+    simp only [minWhen]
+    by_cases hx : x.when ≤ minWhen (z :: zs)
+    · exact ⟨x, by simp, by rw [Nat.min_eq_left hx]⟩
+    · exact ⟨m, List.mem_cons_of_mem _ hm, by rw [Nat.min_eq_right (by omega)]; exact hmw⟩
 
 theorem popMin_some {k : Nat} {h : List Task} {x : Task} {r : List Task} (e : popMin k h = some (x, r)) :
     x ∈ h ∧ (∀ y ∈ h, x.when ≤ y.when) ∧ r = h.erase x := by
@@ -40,21 +42,21 @@ theorem popMin_some {k : Nat} {h : List Task} {x : Task} {r : List Task} (e : po
     have hm := List.mem_of_getElem? hy
     rw [List.mem_filter] at hm
     refine ⟨hm.1, ?_, rfl⟩
-    have := hm.2
-    simp only [isMin, List.all_eq_true, decide_eq_true_eq] at this
-    exact this
+    have h2 := hm.2
+    simp only [beq_iff_eq] at h2
+    intro z hz
+    rw [h2]
+    exact minWhen_le h z hz
   · cases e
 
 theorem popMin_none {k : Nat} {h : List Task} (e : popMin k h = none) : h = [] := by
   apply Classical.byContradiction
   intro hne
-  obtain ⟨m, hm, hmin⟩ := exists_min h hne
-  have hc : m ∈ h.filter (isMin h) := by
+  obtain ⟨m, hm, hmw⟩ := minWhen_mem h hne
+  have hc : m ∈ h.filter (fun x => x.when == minWhen h) := by
     rw [List.mem_filter]
-    refine ⟨hm, ?_⟩
-    simp only [isMin, List.all_eq_true, decide_eq_true_eq]
-    exact hmin
-  have hlen : 0 < (h.filter (isMin h)).length := List.length_pos_of_mem hc
+    exact ⟨hm, by simp [hmw]⟩
+  have hlen : 0 < (h.filter (fun x => x.when == minWhen h)).length := List.length_pos_of_mem hc
   unfold popMin at e
   simp only at e
   split at e
